@@ -326,7 +326,7 @@ class Scenario:
             req += "Content-Type: application/json\r\nContent-Length: %d\r\n" % len(body)
         req = req.encode() + b"\r\n" + (body or b"")
         a = {"essential": True, "kind": "tcp_client", "id": cid, "src": kw.pop("src", "10.7.0.1"), "dst": "%s:%d" % (PROXY4, API_PORT), "start_ms": start_ms,
-             "ops": [send(req), op("recv_eof", keep=1 << 20, timeout_ms=kw.pop("timeout_ms", 30000))]}
+             "ops": [send(req), op("recv_eof", keep=kw.pop("keep", 1 << 20), timeout_ms=kw.pop("timeout_ms", 30000))]}
         a.update(kw)
         self.actors.append(a)
         return a
